@@ -117,22 +117,19 @@ theorem taikoNthLoop_canon (sk : Skills S) (objs : List Bool) :
     simp only [taikoNthLoop, hl, hnext]
     exact h1
 
-/-- **`nth`**, from the canonical state after `i` values: no panic; with
-`r = H - i` values remaining it returns `None` when `r = 0`, otherwise the value number
-`i + min n (r - 1) + 1` — i.e. exactly what `min (n + 1) r` calls of `next` return last — and leaves
-the canonical state after that many values. -/
+/-- **`nth`** (as fixed by `fix: gradual difficulty nth(n) returns None when fewer than n+1 values
+remain`), from the canonical state after `i` values: no panic; with more than `n` values remaining it
+returns the value number `i + n + 1` and leaves the canonical state after that many values; otherwise
+it consumes everything that remains, returns `None` and leaves the drained state. -/
 theorem taikoNth_spec (sk : Skills S) (objs : List Bool) (g : TaikoGrad S) (i n : Nat)
     (hc : TaikoCanon sk objs g i) :
-    (i = hitsIn objs → (taikoNth sk objs g n).1 = .none ∧ (taikoNth sk objs g n).2.idx = i) ∧
-    (i < hitsIn objs →
-      (taikoNth sk objs g n).1 = .some (taikoValue sk objs (i + min n (hitsIn objs - i - 1) + 1)) ∧
-      TaikoCanon sk objs (taikoNth sk objs g n).2 (i + min n (hitsIn objs - i - 1) + 1)) := by
-  have hlen : taikoLen objs g = some (hitsIn objs - i) := by
-    show csub (objs.filter id).length g.idx = _
-    rw [hc.idx]
-    have := hc.le
-    simp [csub, hitsIn] at this ⊢
-    exact this
+    (i + n < hitsIn objs →
+      (taikoNth sk objs g n).1 = .some (taikoValue sk objs (i + n + 1)) ∧
+      TaikoCanon sk objs (taikoNth sk objs g n).2 (i + n + 1)) ∧
+    (hitsIn objs ≤ i + n →
+      (taikoNth sk objs g n).1 = .none ∧ TaikoDrained sk objs (taikoNth sk objs g n).2) := by
+  have hle := hc.le
+  have hlen : taikoLen objs g = some (hitsIn objs - i) := taikoLen_canon sk objs g i hc.idx hc.le
   have hn := nHits_eq objs
   -- the state after the `while take > 0 && idx < n_hits` loop
   have hskip : ∀ t, i + t ≤ hitsIn objs →
@@ -148,34 +145,37 @@ theorem taikoNth_spec (sk : Skills S) (objs : List Bool) (g : TaikoGrad S) (i n 
       rw [hpos]; congr 1; omega
     · show g.skills = _
       rw [hsk]; congr 2; omega
+  have htake : i + min n (hitsIn objs - i) ≤ hitsIn objs := by omega
+  have hc1 := hskip (min n (hitsIn objs - i)) htake
+  obtain ⟨g2, hloop, hc2⟩ := taikoNthLoop_canon sk objs
+    (min n (hitsIn objs - i) - min (min n (hitsIn objs - i)) (firstHits objs - i)) _ _ hc1
+    (by omega) (by omega)
+  have hsum : i + min (min n (hitsIn objs - i)) (firstHits objs - i) +
+      (min n (hitsIn objs - i) - min (min n (hitsIn objs - i)) (firstHits objs - i)) =
+      i + min n (hitsIn objs - i) := by omega
+  rw [hsum] at hc2
+  have hidx := hc.idx
+  rw [hn, hidx] at hloop
   constructor
-  · intro heq
-    have hl0 : taikoLen objs g = some 0 := by rw [hlen, heq]; simp
-    have hc0 := hskip 0 (by omega)
-    simp only [Nat.zero_min, Nat.add_zero] at hc0
-    have hnx := (taikoNext_spec sk objs _ i hc0).2 heq
-    simp only [taikoNth, hl0, Nat.zero_sub, Nat.min_zero, Nat.zero_min, Nat.add_zero, taikoNthLoop]
-    generalize taikoNext sk objs _ = r at hnx ⊢
+  · intro hlt
+    have e : i + min n (hitsIn objs - i) = i + n := by omega
+    rw [e] at hc2
+    have hnx := (taikoNext_spec sk objs g2 _ hc2).1 hlt
+    simp only [taikoNth, hlen]
+    rw [hn, hidx, hloop]
+    simp only
+    generalize taikoNext sk objs g2 = r at hnx ⊢
     obtain ⟨a, b⟩ := r
     obtain ⟨h1, h2⟩ := hnx
     simp only at h1 h2
     subst h1
     exact ⟨rfl, h2⟩
-  · intro hlt
-    have htake : i + min n (hitsIn objs - i - 1) ≤ hitsIn objs := by omega
-    have hc1 := hskip (min n (hitsIn objs - i - 1)) htake
-    obtain ⟨g2, hloop, hc2⟩ := taikoNthLoop_canon sk objs
-      (min n (hitsIn objs - i - 1) - min (min n (hitsIn objs - i - 1)) (firstHits objs - i)) _ _ hc1
-      (by omega) (by omega)
-    have hsum : i + min (min n (hitsIn objs - i - 1)) (firstHits objs - i) +
-        (min n (hitsIn objs - i - 1) - min (min n (hitsIn objs - i - 1)) (firstHits objs - i)) =
-        i + min n (hitsIn objs - i - 1) := by omega
-    rw [hsum] at hc2
-    have hnx := (taikoNext_spec sk objs g2 _ hc2).1 (by omega)
-    have hidx := hc.idx
+  · intro hge
+    have e : i + min n (hitsIn objs - i) = hitsIn objs := by omega
+    rw [e] at hc2
+    have hnx := taikoNext_exhausted sk objs g2 hc2
     simp only [taikoNth, hlen]
-    rw [hn, hidx] at hloop ⊢
-    rw [hloop]
+    rw [hn, hidx, hloop]
     simp only
     generalize taikoNext sk objs g2 = r at hnx ⊢
     obtain ⟨a, b⟩ := r
@@ -184,7 +184,6 @@ theorem taikoNth_spec (sk : Skills S) (objs : List Bool) (g : TaikoGrad S) (i n 
     subst h1
     exact ⟨rfl, h2⟩
 
-
 /-- Once drained, `nth` returns `None` and changes nothing. -/
 theorem taikoNth_drained (sk : Skills S) (objs : List Bool) (g : TaikoGrad S) (k : Nat)
     (hd : TaikoDrained sk objs g) : taikoNth sk objs g k = (.none, g) := by
@@ -192,7 +191,7 @@ theorem taikoNth_drained (sk : Skills S) (objs : List Bool) (g : TaikoGrad S) (k
     rw [taikoLen_canon sk objs g _ hd.idx (Nat.le_refl _)]; simp
   have hg : ({ g with idx := g.idx + 0, maxCombo := g.maxCombo + 0 } : TaikoGrad S) = g := by
     cases g; rfl
-  simp only [taikoNth, hl, Nat.zero_sub, Nat.min_zero, Nat.zero_min, hg, taikoNthLoop,
+  simp only [taikoNth, hl, Nat.min_zero, Nat.zero_min, Nat.sub_self, hg, taikoNthLoop,
     taikoNext_drained sk objs g hd]
 
 /-- `nth` maps reachable states to reachable states and never panics. -/
@@ -200,28 +199,11 @@ theorem taikoNth_st (sk : Skills S) (objs : List Bool) (g : TaikoGrad S) (i k : 
     (hs : TaikoSt sk objs g i) :
     (taikoNth sk objs g k).1 ≠ .panic ∧ ∃ j, TaikoSt sk objs (taikoNth sk objs g k).2 j := by
   rcases hs with hc | ⟨he, hd⟩
-  · rcases Nat.lt_or_ge i (hitsIn objs) with hlt | hge
-    · obtain ⟨hv, hc'⟩ := (taikoNth_spec sk objs g i k hc).2 hlt
+  · rcases Nat.lt_or_ge (i + k) (hitsIn objs) with hlt | hge
+    · obtain ⟨hv, hc'⟩ := (taikoNth_spec sk objs g i k hc).1 hlt
       exact ⟨by rw [hv]; simp, _, Or.inl hc'⟩
-    · have heq : i = hitsIn objs := by have := hc.le; omega
-      have hv := (taikoNth_spec sk objs g i k hc).1 heq
-      refine ⟨by rw [hv.1]; simp, ?_⟩
-      -- the state after the exhausted `nth` is the state after the exhausted `next`
-      have hl0 : taikoLen objs g = some 0 := by
-        rw [taikoLen_canon sk objs g i hc.idx hc.le, heq]; simp
-      have hg : ({ g with idx := g.idx + 0, maxCombo := g.maxCombo + 0 } : TaikoGrad S) = g := by
-        cases g; rfl
-      have hx := taikoNext_exhausted sk objs g (heq ▸ hc)
-      have hst : (taikoNth sk objs g k).2 = (taikoNext sk objs g).2 := by
-        simp only [taikoNth, hl0, Nat.zero_sub, Nat.min_zero, Nat.zero_min, hg, taikoNthLoop]
-        generalize taikoNext sk objs g = r at hx ⊢
-        obtain ⟨a, b⟩ := r
-        obtain ⟨h1, _⟩ := hx
-        simp only at h1
-        subst h1
-        rfl
-      rw [hst]
-      exact ⟨_, Or.inr ⟨rfl, hx.2⟩⟩
+    · obtain ⟨hv, hd'⟩ := (taikoNth_spec sk objs g i k hc).2 hge
+      exact ⟨by rw [hv]; simp, _, Or.inr ⟨rfl, hd'⟩⟩
   · rw [taikoNth_drained sk objs g k hd]
     exact ⟨by simp, i, Or.inr ⟨he, hd⟩⟩
 
